@@ -14,13 +14,45 @@ EXPLANATION = ("Experiments whose triple list (length <=3, component indices ove
                "sharing pattern and order is reached), learner kind, fault position and execution mode (in-process, or emulated workers with a solver-chosen "
                "maxtasksperchunk over chunked environments) are solver-enumerated; every triple's rows are compared with the rows of the same triple run alone "
                "on a fresh learner, failing triples must contribute no rows and one logged exception, shared user learner objects must stay untouched.")
-ASSUMPTIONS = ["finite enumeration of sharing patterns / fault positions through z3 integers; no value reasoning",
+ASSUMPTIONS = ["the reference rows of a triple run alone come from a fresh interpreter per triple (cached for the duration of the check)", "finite enumeration of sharing patterns / fault positions through z3 integers; no value reasoning",
                "faults: exception in environment params, environment read after j interactions, learner predict/learn at call j (the learner publishes learning_info before raising), evaluator; one faulty component per experiment",
                "worker processes emulated as in C01 (pickled chunks, reset context); real OS processes outside"]
 FUNCS = ['coba.experiments.process:MakeTasks.read','coba.experiments.process:ProcessTasks.filter','coba.experiments.process:ChunkTasks._chunks','coba.experiments.core:Experiment.run',
          'coba.evaluators.sequential:SequentialCB._results','coba.safety:SafeLearner.learn','coba.results.core:TransactionResult.filter']
 
 class Boom(Exception): pass
+
+# ---- references from a pristine interpreter ----------------------------------------------------------
+# The rows a triple produces "when run alone" are computed in a FRESH interpreter (one per triple, cached on disk for the
+# duration of the check): a reference computed in the harness process would share any process-wide state (class-level
+# caches, module globals) with the run under test and could not expose an evaluation that depends on earlier ones.
+import os, sys, atexit, hashlib, shutil, subprocess, tempfile
+if not os.environ.get('C03_REFDIR'):
+    os.environ['C03_REFDIR'] = tempfile.mkdtemp(prefix='c03ref_')
+    _owner = os.getpid()
+    atexit.register(lambda: os.getpid() == _owner and shutil.rmtree(os.environ['C03_REFDIR'], ignore_errors=True))
+
+def pristine(fn, *args):
+    d = os.environ['C03_REFDIR']; os.makedirs(d, exist_ok=True)
+    path = os.path.join(d, hashlib.sha1(repr((fn,args)).encode()).hexdigest()+'.pkl')
+    if not os.path.exists(path):
+        code = "import sys,pickle,warnings; warnings.simplefilter('ignore'); from vf.props import c03; sys.stdout.buffer.write(b'REF'+pickle.dumps(getattr(c03,sys.argv[1])(*eval(sys.argv[2]))))"
+        out = subprocess.run([sys.executable,'-W','ignore','-c',code,fn,repr(args)], capture_output=True, timeout=120)
+        i = out.stdout.find(b'REF')
+        if out.returncode != 0 or i < 0: raise RuntimeError(f"reference interpreter failed: {out.stderr[-400:]!r}")
+        tmp = path+f'.{os.getpid()}'
+        open(tmp,'wb').write(out.stdout[i+3:]); os.replace(tmp, path)
+    return pickle.loads(open(path,'rb').read())
+
+def _alone1(e, l, v, lk, fault_i):
+    triples, _ = build([(e,l,v)], lk, FAULTS[fault_i], False)
+    res, log = run_inprocess(triples)
+    return rows_by_triple(res).get((0,0,0))
+
+def _alone2(e, l, v):
+    triples, _ = build2([(e,l,v)])
+    res, log = run_inprocess(triples)
+    return rows_by_triple(res).get((0,0,0))
 
 class FEnv:
     def __init__(self, name, fault=None): self.name, self.fault = name, fault
@@ -118,6 +150,7 @@ def _classify(v): return v['what'].split(':')[0][:110]
             functions=FUNCS, classify=_classify, budget={'quick':80,'thorough':900},
             params=lambda tier: [dict(n=n, fault=f, mode=m) for n in (1,2,3) for f in range(len(FAULTS)) for m in ('inproc','emu_plain','emu_chunked')])
 def isolation(sym, n, fault, mode):
+    fault_i = fault
     fault = FAULTS[fault]
     lk = sym.choice('lk', ['counting','bandit'])
     mt = sym.choice('mt', [0,1,2]) if mode != 'inproc' else 0
@@ -136,9 +169,7 @@ def isolation(sym, n, fault, mode):
         eids.setdefault(e, len(eids)); lids.setdefault(l, len(lids)); vids.setdefault(v, len(vids))
     n_fail = 0
     for (e,l,v) in idx:
-        alone_triples, _ = build([(e,l,v)], lk, fault, False)
-        ares, alog = run_inprocess(alone_triples)
-        alone = rows_by_triple(ares).get((0,0,0))
+        alone = pristine('_alone1', e, l, v, lk, fault_i)
         key = (eids[e], lids[l], vids[v])
         if alone is None:
             n_fail += 1
@@ -153,3 +184,53 @@ def isolation(sym, n, fault, mode):
         for li,lrn in enumerate(lrns):
             if sum(1 for t in idx if t[1] == li) > 1 and hasattr(lrn,'learned'):
                 sym.check(lrn.n == 0 and lrn.learned == 0, f"the user's learner object L{li}, listed in several triples, was trained in place")
+
+# ---------------------------------------------------------------------------------------------------
+class NoBatchLearner:
+    """stateful learner that cannot handle batches (hash of a batch raises): SafeLearner has to fall back to row-by-row calls"""
+    def __init__(self, tag): self.tag = tag; self.n = 0; self.learned = 0
+    @property
+    def params(self): return {'family': 'nobatch', 'tag': self.tag}
+    def predict(self, context, actions):
+        k = hash(context) % 7
+        self.n += 1
+        return actions[(k + self.n + 2*self.learned) % len(actions)], 1/len(actions)
+    def learn(self, context, action, reward, probability):
+        hash(context)
+        self.learned += 1
+
+def build2(idx):
+    from coba.learners import RandomLearner
+    from coba.evaluators import RejectionCB
+    envs = [FEnv('aa'), Environments(FEnv('bbb')).batch(2)._envs[0], Environments(exp.ListEnv('cc', n=8)).logged(RandomLearner(seed=2))._envs[0], Environments(exp.ListEnv('dddd', n=8)).logged(RandomLearner(seed=5))._envs[0]]
+    lrns = [NoBatchLearner('N0'), BanditEpsilonLearner(.1, seed=1), NoBatchLearner('N1')]
+    vals = [SequentialCB(), RejectionCB(seed=3)]
+    return [(envs[e], lrns[l], vals[v]) for e,l,v in idx], lrns
+
+@obligation('C03','shared_components', bounds={'quick':"ordered triple lists of length 2 over 4 environments (plain, batched, two logged) x 3 learners (two that cannot handle batches, BanditEpsilon) x 2 evaluators (SequentialCB, RejectionCB with an explicit seed), indices as z3 ints; modes {in-process, emulated workers with maxtasksperchunk 0}: every triple's rows equal those of the same triple run alone (an unsupported combination must fail alone as well)",
+                                               'thorough':"length 2 and 3; maxtasksperchunk in {0,1,2}"},
+            functions=FUNCS+['coba.safety:SafeLearner.predict','coba.evaluators.sequential:RejectionCB.evaluate'], classify=_classify, budget={'quick':100,'thorough':1500},
+            params=lambda tier: [dict(n=n, mode=m, e0=e0) for n in ((2,) if tier == 'quick' else (2,3)) for m in ('inproc','emu') for e0 in range(4)])
+def shared_components(sym, n, mode, e0):
+    tier = __import__('os').environ.get('VERIF_TIER_EFFECTIVE','quick')
+    mt = 0 if (mode == 'inproc' or tier == 'quick') else sym.choice('mt', [0,1,2])
+    idx = [(e0, unwrap(sym.int('l0',0,2)), unwrap(sym.int('v0',0,1)))]
+    for i in range(1,n):
+        idx.append((unwrap(sym.int(f'e{i}',0,3)), unwrap(sym.int(f'l{i}',0,2)), unwrap(sym.int(f'v{i}',0,1))))
+    sym.assume(len(set(idx)) == len(idx))
+    if n == 3: sym.assume(len({t[0] for t in idx}) < 3 or len({t[2] for t in idx}) < 2)      # only lists that share at least an environment or an evaluator object
+    triples, lrns = build2(idx)
+    if mode == 'inproc': res, log = run_inprocess(triples)
+    else: res, log = run_emulated(triples, mt)
+    got = rows_by_triple(res)
+    eids, lids, vids = {}, {}, {}
+    for e,l,v in idx:
+        eids.setdefault(e, len(eids)); lids.setdefault(l, len(lids)); vids.setdefault(v, len(vids))
+    for (e,l,v) in idx:
+        alone = pristine('_alone2', e, l, v)
+        key = (eids[e], lids[l], vids[v])
+        if alone is None:
+            sym.check(key not in got, f"triple {(e,l,v)} fails when run alone but contributed rows in the list {idx}")
+        else:
+            sym.check(key in got, f"rows of the healthy triple {(e,l,v)} are missing (list={idx}, mode={mode}, mt={mt})")
+            if key in got: sym.check(got[key] == alone, f"rows of triple {(e,l,v)} differ from the same triple run alone on fresh components: {got[key][:3]} != {alone[:3]} (list={idx}, mode={mode})")
